@@ -116,7 +116,8 @@ namespace AIToolbox {
         // Add new empty column to LP
         add_columnex(pimpl_->lp_.get(), 0, NULL, NULL);
 
-        return varNumber_;
+        // The index of the new column, as used by row[], setObjective(n) etc.
+        return varNumber_ - 1;
     }
 
     void LP::setUnbounded(const size_t n) {
